@@ -298,3 +298,40 @@ PROOFS.append(Proof(["C17", "C02"], D + ":bipartite_graph_embed", _embed_driver(
                     native="from native.c17_decomp import replay_bipartite; replay_bipartite(OBLIGATION, I)"))
 PROOFS.append(Proof(["C17", "C02"], D + ":graph_embed", _embed_driver("graph_embed", False), name="graph_embed/driver"))
 PROOFS.append(Proof(["C17", "C02"], D + ":graph_embed", _embed_driver("graph_embed", True), name="graph_embed/driver/make_traceless"))
+
+
+# ------------------------------------------------------------------ takagi: what is let through to the factorisation
+class _PastValidation(Exception):
+    pass
+
+
+@proof("C17", D + ":takagi", name="takagi/only-symmetric-matrices-reach-the-factorisation",
+       native="from native.c17_decomp import replay_takagi_validation; replay_takagi_validation(OBLIGATION, I)")
+def _takagi_validation(h):
+    """U diag(s) U^T is symmetric, so a matrix that is not symmetric has no Takagi factorisation: it has to be rejected, not
+    decomposed wrongly.  2 x 2 and 3 x 3 matrices with symbolic real entries; everything after the validation is cut off.
+    Clause: whatever passes the validation is symmetric within the ABSOLUTE tolerance `tol` the function documents
+    (every off-diagonal pair differs by less than tol - no relative slack that grows with the size of the entries)."""
+    dec = h.module(D)
+    n = (2, 3)[h.eng.choose(2, "n")]
+    N = np.empty((n, n), dtype=object)
+    for a in range(n):
+        for b in range(n):
+            N[a, b] = h.real(f"N{a}{b}")
+    tol = h.real("tol")
+    h.require(And(tol > 0, tol <= 1e-6))
+
+    def cut(x, *a, **k):
+        raise _PastValidation()
+    with h.stubbed(dec.np, "real_if_close", cut):
+        out = h.call(dec.takagi, N, tol)
+    if out.returned:
+        h.ensure("validation-reached-the-cut", False, bounded_shape=True)
+        return
+    if isinstance(out.exc, _PastValidation):
+        for a in range(n):
+            for b in range(a + 1, n):
+                h.ensure(f"accepted=>|N[{a},{b}]-N[{b},{a}]|<tol", abs(N[a, b] - N[b, a]) < tol, bounded_shape=True)
+    else:
+        h.ensure("rejected-with-ValueError", out.raised("ValueError"), bounded_shape=True)
+        h.ensure("rejected=>not-exactly-symmetric", Or(*[Not(eqv(N[a, b], N[b, a])) for a in range(n) for b in range(a + 1, n)]), bounded_shape=True)
